@@ -106,9 +106,9 @@ def farAdjust (s : Instr) (regR : Nat) : Instr × Nat :=
     (s, (regR + 1) % 2 ^ 32)
   else (s, regR)
 
-/-- O encoding, register operand: REX.B for r8..r15 -/
+/-- O encoding, register operand: REX.B for r8..r15 and r8w..r15w -/
 def rexBExt (s : Instr) (m : Nat) : Instr :=
-  if ((s.opd m).reg &&& c_MODE_MASK) == c_ext64
+  if band (s.opd m).reg c_REG_RB
   then { s with hex := { s.hex with rex := s.hex.rex ||| (c_rex_ + c_rex_b) } } else s
 
 /-- O encoding, memory operand, after get_reg: mod and r/m from `hex.reg`, REX.B / REX.X from the
@@ -144,7 +144,8 @@ def encodeSpecialOpd (opt : Nat) (s : Instr) (m i : Nat) : R Instr :=
 
 /-- `encode_operands`, first part: the xchg accumulator form (operand swap, next row, rd) -/
 def xchgAdjust (s : Instr) : Instr :=
-  if nameIs s.key c_xchg && !s.memDisp then
+  if nameIs s.key c_xchg && !s.memDisp &&
+     !(s.opd0.reg == (c_reg32 ||| c_al) && s.opd1.reg == (c_reg32 ||| c_al)) then
     let s :=
       if (s.opd0.reg &&& c_MODE_MASK) > c_noext8 && (s.opd0.reg &&& c_REG_MASK) == c_al then
         { s with opd0 := s.opd1, opd1 := s.opd0, key := s.key + 1 }
@@ -152,6 +153,17 @@ def xchgAdjust (s : Instr) : Instr :=
         { s with key := s.key + 1 }
       else s
     { s with rdOffset := s.opd0.reg &&& c_VALUE_MASK }
+  else s
+
+/-- `encode_operands`: movzx from a 16-bit source is the next row (0f b7); the `word` keyword of a
+    memory source becomes `dword` so that it is not emitted as an operand-size prefix -/
+def movzxAdjust (s : Instr) : Instr :=
+  if nameIs s.key c_movzx then
+    let srcMode := s.opd1.reg &&& c_MODE_MASK
+    if (if s.memDisp then s.kw.isWord else (srcMode == c_reg16 || srcMode == c_ext16)) then
+      let s := { s with key := s.key + 1 }
+      if s.kw.isWord then { s with kw := { s.kw with isWord := false, isDword := true } } else s
+    else s
   else s
 
 /-- `encode_operands`, the switch over the operand encoding of the selected row -/
@@ -165,7 +177,7 @@ def dispatchEnc (opt : Nat) (s : Instr) : R Instr :=
 
 /-- `encode_operands`. -/
 def encodeOperands (opt : Nat) (s : Instr) : R Instr :=
-  let s := xchgAdjust s
+  let s := movzxAdjust (xchgAdjust s)
   dispatchEnc opt (if s.memDisp then autoSetByte s else s)
 
 /-- `nasm_register_size_optimize`. -/
@@ -194,13 +206,22 @@ def dtOpOffset (nasm : Bool) (s : Instr) : Instr :=
   if (s.opd0.reg &&& c_MODE_MASK) > c_noext8 && ((nasm && !s.memDisp) || (rowAt s.key).enc == c_I)
   then { s with opOffset := c_BIT_8 } else s
 
+/-- `encode_imm_data_transfer`: a 32-bit register takes the low half of a negative 32 bit value -/
+def dtNeg32 (s : Instr) : Instr :=
+  let mode := s.opd0.reg &&& c_MODE_MASK
+  if inR s.cons (c_NEG32BIT + 1) c_NEG64BIT && band s.cons c_NEG32BIT_CHECK && !s.memDisp &&
+     (mode == c_reg32 || mode == c_ext32)
+  then { s with cons := s.cons &&& c_MAX_UNSIGNED_32BIT, reducedImm := true } else s
+
 /-- `encode_imm_data_transfer`. -/
 def encodeImmDataTransfer (opt : Nat) (s : Instr) : Instr :=
   let s := { s with rdOffset := s.opd0.reg &&& c_VALUE_MASK }
   if inR s.cons (c_NEG32BIT + 1) c_NEG64BIT && band s.cons c_NEG32BIT_CHECK &&
      (band s.opd0.reg c_reg64 || s.memDisp) then
     { s with key := s.key + 1, cons := s.cons &&& c_MAX_UNSIGNED_32BIT, reducedImm := true }
-  else dtOpOffset (effNasm opt s) (dtSelect (effNasm opt s) s)
+  else
+    let s := dtNeg32 s
+    dtOpOffset (effNasm opt s) (dtSelect (effNasm opt s) s)
 
 /-- `encode_imm_non_data_transfer`. -/
 def encodeImmNonDataTransfer (s : Instr) : Instr :=
@@ -226,9 +247,16 @@ def encodeImmOperation (s : Instr) : Instr :=
       !inR s.cons c_NEG80BIT (c_NEG64BIT - 1))
   then { s with key := s.key + 1 } else s
 
+/-- `opd0_width_mode`: mode bits for the width of the first operand; a memory operand is as wide
+    as its size keyword says -/
+def opd0WidthMode (s : Instr) : Nat :=
+  if s.memDisp && s.memIndex == 0 then
+    if s.kw.isByte then c_noext8 else if s.kw.isWord then c_reg16 else if s.kw.isDword then c_reg32 else c_reg64
+  else s.opd0.reg &&& c_MODE_MASK
+
 /-- `encode_imm`, first step: the accumulator short form of an OPERATION row -/
 def immSelectAcc (s : Instr) : Instr :=
-  if typeIs s.key c_OPERATION then encodeImmOperation s else s
+  if typeIs s.key c_OPERATION && !s.memDisp then encodeImmOperation s else s
 
 /-- `encode_imm`, second step: per instruction class -/
 def immByClass (opt : Nat) (s : Instr) : Instr :=
@@ -237,7 +265,7 @@ def immByClass (opt : Nat) (s : Instr) : Instr :=
   else if s.opOffset == 1 && typeIs s.key c_PAD_ALWAYS then
     let s := if inR s.cons (c_NEG32BIT + 1) c_NEG64BIT
              then { s with cons := s.cons &&& c_MAX_UNSIGNED_32BIT, reducedImm := true } else s
-    if (s.opd0.reg &&& c_REG_MASK) == c_al then { s with key := s.key + 1 } else s
+    if (s.opd0.reg &&& c_REG_MASK) == c_al && !s.memDisp then { s with key := s.key + 1 } else s
   else if s.opOffset == 1 && !typeIs s.key c_DATA_TRANSFER then encodeImmNonDataTransfer s
   else if typeIs s.key c_DATA_TRANSFER then encodeImmDataTransfer opt s
   else s
@@ -245,7 +273,7 @@ def immByClass (opt : Nat) (s : Instr) : Instr :=
 /-- `encode_imm`, last step: truncation for 16-bit and 8-bit destinations
     (`opd[0].reg` may have been narrowed by nasm_register_size_optimize: it is re-read) -/
 def immTruncate (s : Instr) : Instr :=
-  let mode := s.opd0.reg &&& c_MODE_MASK
+  let mode := opd0WidthMode s
   let s :=
     if mode < c_reg32 then
       let s := { s with cons := s.cons &&& c_MAX_UNSIGNED_16BIT, reducedImm := true }
